@@ -34,7 +34,7 @@ META = {
                    "ixseps1/2, jyseps*, ny_inner are executed with every size option a z3 Int >= 1; claims are LIA queries.",
     "bounds": "all per-region nx/ny sizes symbolic and unbounded above (>=1); y_boundary_guards enumerated 0..2 (quick) / 0..4 (thorough); "
               "topologies LSN, USN, CDN, LDN, UDN and LSN/CDN/LDN/UDN with start_at_upper_outer; nx_inter_sep symbolic >=1 for disconnected DN.",
-    "out": "coincidence of corner *coordinates* on shared x-edges (contours are shared objects there) beyond the getRZBoundary copy on y-edges; values of chi (its NaN mask and the theta index expressions are decided).",
+    "out": "coincidence of corner *coordinates* on shared x-edges beyond what decides them (orthogonal grids: both regions follow the same perpendiculars from the same skeleton points; non-orthogonal grids: the global x index and the surface direction handed to the spacing functions are decided, the interpolation itself is not) and beyond the getRZBoundary copy on y-edges; values of chi (its NaN mask and the theta index expressions are decided).",
     "assumptions": ["findLegs, coreRegionToRegion, segmentsWithPsivals (numerics) are stubbed: only sizes matter here",
                     "MeshRegion is replaced by a record stub (id, connections); EquilibriumRegion.getRegridded -> identity",
                     "BOUT++ reference semantics of ixseps/jyseps/ny_inner/y_boundary_guards written in this harness from the BOUT++ manual (BoutMesh::topology): "
@@ -482,6 +482,73 @@ def _mk_xpoint_markers(kind, psi_sign=1.0):
     return body
 
 
+def ob_global_xind(env):
+    """MeshRegion.globalXInd: the contour shared by two radially adjacent regions (last of the inner one, first of the outer one) has ONE global index
+    from both sides, the index is 0 on the primary separatrix and increases by one from contour to contour.  (The index decides the radially varying
+    spacing ranges of a non-orthogonal grid: two different values would grid the shared flux surface twice, differently.)"""
+    nseg = 3
+    nx = [env.int("nx_segment%d" % k, lo=1) for k in range(nseg)]
+    sep = env.choose(nseg + 1)          # number of radial segments inside the separatrix (0: none, nseg: all)
+    env.tag("segments_inside_separatrix=%d" % sep)
+    regs = []
+    for r in range(nseg):
+        m = meshm.MeshRegion.__new__(meshm.MeshRegion)
+        m.radialIndex = r
+        m.equilibriumRegion = types.SimpleNamespace(nx=nx, separatrix_radial_index=sep)
+        regs.append(m)
+    env.witness("indices_computed")
+    for r in range(nseg - 1):
+        env.claim_eq("shared_contour_has_one_global_index:%d|%d" % (r, r + 1), regs[r].globalXInd(2 * nx[r]), regs[r + 1].globalXInd(0))
+    for r in range(nseg):
+        i = env.int("i", lo=0)
+        env.claim_eq("consecutive_contours_consecutive_indices", regs[r].globalXInd(i + 1), regs[r].globalXInd(i) + 1)
+    if 0 < sep < nseg:
+        env.claim_eq("zero_on_the_separatrix(from_inside)", regs[sep - 1].globalXInd(2 * nx[sep - 1]), 0)
+    if sep < nseg:
+        env.claim_eq("zero_on_the_separatrix(from_outside)", regs[sep].globalXInd(0), 0)
+    if sep == nseg:
+        env.claim_eq("zero_on_the_separatrix(from_inside)", regs[nseg - 1].globalXInd(2 * nx[nseg - 1]), 0)
+
+
+def _mk_shared_contour_direction(lower):
+    """non-orthogonal grids: the contour shared by two radially adjacent regions is redistributed by each of them; the surface direction that fixes the
+    perpendicular spacing at its ends (surface_vec in distributePointsNonorthogonal) must be the same from both sides, otherwise the two regions put
+    different points on the flux surface they share (the primary separatrix is special-cased by the code and not the subject here)"""
+    def body(env):
+        from symx import slices
+        fn, info = slices.slice_function(meshm.MeshRegion.distributePointsNonorthogonal, lambda n: isinstance(n, ast.FunctionDef) and n.name == "surface_vec",
+                                         lambda n: isinstance(n, ast.FunctionDef) and n.name == "get_sfunc", ["self"], dict(meshm.__dict__, numpy=numpy),
+                                         name="surface_vec_of_distributePointsNonorthogonal")
+
+        class C:
+            def __init__(self, name, psival, pts=None):
+                self.psival, self.startInd, self.endInd = psival, 0, 1
+                self.pts = pts or [Point2D(env.real("%s_%s_R" % (name, e)), env.real("%s_%s_Z" % (name, e))) for e in ("start", "end")]
+
+            def __getitem__(self, k):
+                return self.pts[k]
+
+        shared_pts = C("shared", 1.2).pts
+        inner = [C("inner0", 1.1), C("inner1", 1.15), C("shared", 1.2, shared_pts)]
+        outer = [C("shared", 1.2, shared_pts), C("outer1", 1.25), C("outer2", 1.3)]
+        regs = []
+        for contours in (inner, outer):
+            r = types.SimpleNamespace(contours=contours, meshParent=types.SimpleNamespace(equilibrium=types.SimpleNamespace(psi_sep=[1.0])),
+                                      equilibriumRegion=types.SimpleNamespace(wallSurfaceAtStart=None, wallSurfaceAtEnd=None))
+            regs.append(fn(r)["surface_vec"])
+        va = regs[0](2, inner[2], lower)
+        vb = regs[1](0, outer[0], lower)
+        env.witness("directions_computed")
+        if va is None or vb is None:
+            env.claim("both_sides_use_poloidal_spacing_or_neither", va is None and vb is None)
+            return
+        cross = va[0] * vb[1] - va[1] * vb[0]
+        dot = va[0] * vb[0] + va[1] * vb[1]
+        env.claim_eq("same_surface_direction_from_both_sides(parallel)", cross, 0)
+        env.claim("same_surface_direction_from_both_sides(same_sense)", dot > 0)
+    return body
+
+
 def _mk(kind, guards, suo=False):
     def body(env):
         if kind in ("circular_core", "circular_limiter"):
@@ -639,6 +706,16 @@ for _k in ("lsn", "usn", "cdn", "ldn", "udn"):
                               encodes=["hypnotoad.cases.tokamak:TokamakEquilibrium.describeSingleNull", "hypnotoad.cases.tokamak:TokamakEquilibrium.describeDoubleNull"],
                               desc="each region end that touches an X-point carries that X-point's marker at the radial boundary on its separatrix and nowhere else",
                               bounds="real descriptors with symbolic sizes; %s" % _k, max_paths=400))
+OBLIGATIONS.append(Ob("global_x_index_of_shared_contours", ob_global_xind, tier="quick", family="global index",
+                      encodes=["hypnotoad.core.mesh:MeshRegion.globalXInd"],
+                      desc="a contour shared by two radially adjacent regions has one global x index from both sides; 0 on the separatrix; consecutive",
+                      bounds="3 radial segments with symbolic sizes >= 1; separatrix after 0..3 segments", max_paths=40))
+for _lw in (True, False):
+    OBLIGATIONS.append(Ob("shared_contour_redistributed_identically_%s_end" % ("lower" if _lw else "upper"), _mk_shared_contour_direction(_lw), tier="quick", family="shared edges",
+                          encodes=["hypnotoad.core.mesh:MeshRegion.distributePointsNonorthogonal"],
+                          desc="non-orthogonal grids: the surface direction used for the perpendicular spacing of a contour shared by two radially adjacent regions "
+                               "(not the primary separatrix) is the same from both sides, so both regions put the same points on it",
+                          bounds="3 contours per region, end points symbolic", max_paths=10))
 import harness.c01 as _c01  # noqa: E402
 OBLIGATIONS.append(Ob("shared_y_edge_points_coincide", _c01._mk_rzboundary(True), tier="quick", family="getRZBoundary",
                       desc="after getRZBoundary the points on the y-edge shared with the upper neighbour coincide with the neighbour's (both coordinates, ylow and corners)",
